@@ -74,6 +74,7 @@ fn mh_case(ctx: &Ctx, n: usize, seed: Option<u64>) {
                 ctx.violation(Violation::new(format!("C08:mh-trajectories-equal({tag})"), format!("MH ({n} chains, seed {}): chains {i} and {j} follow identical trajectories for 64 steps from the common start", sd(seed)), case.clone()));
             } else if p.is_none() && f.is_none() && g.is_none() {
                 ctx.outcome("MH:distinct", 1);
+                ctx.sample_tagged("MH configuration", || case.clone());
                 ctx.distinct(hash_str(&case.to_string()));
             }
             let _ = mv;
@@ -204,7 +205,6 @@ pub fn run(ctx: &Ctx) {
         }
         hmc_case(ctx, *n, *seed);
     });
-    ctx.sample(json!({"sampler": "MH", "n_chains": 3, "seed": "42", "common_start": [0.25, -0.5], "compared": ["proposal generators", "first proposals", "acceptance generators", "64-step trajectories"]}));
     ctx.assume("unseeded construction draws OS entropy (the one nondeterminism the harness does not own): the oracle is pairwise inequality, insensitive to the values; accidental collisions have probability ~2^-64");
 }
 
